@@ -234,6 +234,25 @@ pub fn op1(op: &Op1, inp: &Seq) -> Option<Seq> {
       }
     }
     Op1::Collect => only_on_complete(vec![V::L(xs.clone())]),
+    Op1::MapIdx => pass(xs.iter().enumerate().map(|(k, v)| vi(v.num() + 10 * k as i64)).collect()),
+    Op1::FilterIdx => pass(xs.iter().enumerate().filter(|(k, _)| k % 2 == 0).map(|(_, v)| v.clone()).collect()),
+    Op1::TakeWhileIdx(n) => {
+      if xs.len() > *n {
+        Some(Seq { items: xs[..*n].to_vec(), t: T::C })
+      } else {
+        pass(xs.clone())
+      }
+    }
+    Op1::SkipWhileIdx(n) => pass(xs.iter().skip(*n).cloned().collect()),
+    Op1::ScanIdx => {
+      let mut acc = 0i64;
+      let mut o = vec![];
+      for (k, x) in xs.iter().enumerate() {
+        acc = acc + x.num() + k as i64;
+        o.push(vi(acc));
+      }
+      pass(o)
+    }
     Op1::OnErrorMap => Some(Seq {
       items: xs.clone(),
       t: match t {
